@@ -196,8 +196,14 @@ package internal
 //@ func (*Timer).Set$1
 //@   prop C04
 //@   requires t != nil && tiInv(t) && cb != nil
+//@   requires !armed(&t.slot, PollerReadEvent)
 //@   remember after call syscall.Read: expired = (result0 == 8 && result1 == nil)
+//@   remember after call SetRead: rearmFailed = (result != nil)
 //@   assert call cb: expired
+//@   // a stale event does not lose the schedule: the callback runs now, or the timer keeps waiting
+//@   // (armed and counted again), unless the poller itself refuses the registration
+//@   consumes cb unless armed(&t.slot, PollerReadEvent) || rearmFailed
+//@   ensures [stale-keeps-waiting] invoked(cb) == 0 && !rearmFailed ==> t.poller.pending == old(t.poller.pending) + 1
 
 //@ func (*Timer).Unset
 //@   prop C04, C03
